@@ -1032,7 +1032,10 @@ def readGraph(input_file,
                 pass
             try:
                 # pydot gives string labels: '10' must not sort before '2'
-                G = networkx.relabel_nodes(G, {v: int(v) for v in G.nodes()})
+                # (but '01' and '1' are two vertices)
+                numbers = {v: int(v) for v in G.nodes()}
+                if len(set(numbers.values())) == len(numbers):
+                    G = networkx.relabel_nodes(G, numbers)
             except ValueError:
                 pass
             G = graph_class.normalize(G)
